@@ -71,7 +71,8 @@ type Case struct {
 
 // The protocol stream goes to the original stdout; os.Stdout itself is redirected to /dev/null because
 // sqlc prints to it (unformatted source on a go/format failure, "unsupported reference type").
-var out = json.NewEncoder(protoStream())
+var protoFile = protoStream()
+var out = json.NewEncoder(protoFile)
 
 func protoStream() *os.File {
 	fd, err := syscall.Dup(1)
@@ -174,6 +175,8 @@ func generate(files map[string]string) GenResult {
 	defer os.RemoveAll(dir)
 	return generateDir(dir)
 }
+
+func sortStrings(xs []string) { sort.Strings(xs) }
 
 func sortedKeys(m map[string]string) []string {
 	ks := make([]string, 0, len(m))
